@@ -227,6 +227,16 @@ def server_case(rng, stats, length, pid):
                 else:
                     sim.streams[sid] = "created"
             feed(ps.msg(20, rng.choice([0, sid]), cmd_body(name, 0.0, ("z",), args)))
+            if a == 7 and sid in sim.gone and rng.chance(1, 2):
+                # epilogue: the peer keeps using the deleted stream (publish again, outstanding accepts, late media)
+                if rng.chance(1, 2) and sim.connected:
+                    sim.out[sim.next_req] = ("pub", sid); sim.next_req += 1
+                    feed(ps.msg(20, sid, cmd_body("publish", 0.0, ("z",), [s(rng.choice(KEYS)), s("live")])))
+                for rid in [r for r, (k_, sd) in sim.out.items() if sd == sid][:2]:
+                    ops.append(f"srv.accept {rand_now(rng, st)} {rid}")
+                    sim.out.pop(rid); sim.done.append(rid)
+                feed(ps.msg(rng.choice([8, 9]), sid, rng.bytes(5)))
+                bump(stats, "srv_deleted_stream_epilogue")
         elif a in (8, 9, 10):    # audio / video
             sid = pick_sid()
             data = rng.bytes(rng.choice([0, 1, 5, 200, 5000]))
@@ -279,6 +289,12 @@ def server_case(rng, stats, length, pid):
                 sim.out.pop(rid); sim.done.append(rid)
         elif a in (21, 22):   # send media
             data = rng.bytes(rng.choice([0, 1, 100, 5000]))
+            if rng.chance(1, 3):   # a cadence: same kind, stream, length and timestamp step, so headers compress to format 3
+                kind, sid, t0, dt = rng.choice('av'), pick_sid(), rng.choice([0, 40, 0xFFFFF0, rng.below(M32)]), rng.choice([0, 10, 40, 0xFFFFFF, 0x1000000])
+                data = data[:300]
+                for j in range(rng.range(3, 6)):
+                    ops.append(f"srv.media {kind} {sid} {(t0 + j * dt) % M32} {rng.below(2)} {hexb(data)}")
+                continue
             ops.append(f"srv.media {rng.choice('av')} {pick_sid()} {rng.choice([0, 40, 0xFFFFFF, M32 - 1, rng.below(M32)])} {rng.below(2)} {hexb(data)}")
         elif a == 23:
             ops.append(f"srv.meta {rand_now(rng, st)} {pick_sid()} {meta_text(rng)}")
@@ -314,6 +330,7 @@ class ClientSim:
         self.txns = {}
         self.done = []
         self.active = None
+        self.former = []     # streams that were active before a stop
 
 
 def client_case(rng, stats, length, pid):
@@ -345,6 +362,7 @@ def client_case(rng, stats, length, pid):
     def pick_sid():
         k = rng.below(5)
         if k < 3 and sim.active is not None: return sim.active
+        if k < 3 and sim.former: return rng.choice(sim.former)     # late messages for a stream that was stopped
         if k == 3: return 0
         return rng.choice([1, 2, 77])
 
@@ -391,10 +409,23 @@ def client_case(rng, stats, length, pid):
             what = rng.choice(["play", "pub"])
             ops.append(f"cli.stop {now} {what}")
             if (what == "play" and sim.state in ("playreq", "playing")) or (what == "pub" and sim.state in ("pubreq", "publishing")):
+                if sim.active is not None: sim.former.append(sim.active)
                 sim.state = "conn"; sim.active = None
+                if sim.former and rng.chance(1, 2):
+                    # epilogue: late messages of the stopped stream
+                    f = sim.former[-1]
+                    if rng.chance(1, 2): feed(ps.msg(18, f, GA.encs([s("onMetaData"), meta_object(rng)])))
+                    else: feed(ps.msg(rng.choice([8, 9]), f, rng.bytes(5)))
+                    bump(stats, "cli_stopped_stream_epilogue")
         elif a == 5:
             ops.append(f"cli.meta {now} {meta_text(rng)}")
         elif a in (6, 7):
+            if rng.chance(1, 3):
+                kind, t0, dt = rng.choice('av'), rng.choice([0, 40, 0xFFFFF0, rng.below(M32)]), rng.choice([0, 10, 40, 0xFFFFFF, 0x1000000])
+                data = rng.bytes(rng.choice([0, 1, 100, 300]))
+                for j in range(rng.range(3, 6)):
+                    ops.append(f"cli.media {kind} {(t0 + j * dt) % M32} {rng.below(2)} {hexb(data)}")
+                continue
             ops.append(f"cli.media {rng.choice('av')} {rng.choice([0, 40, 0xFFFFFF, M32 - 1, rng.below(M32)])} {rng.below(2)} {hexb(rng.bytes(rng.choice([0, 1, 100, 5000])))}")
         elif a == 8:
             ops.append(f"cli.ping {now}")
